@@ -29,6 +29,13 @@ def attr_name(n):
     raise GenError("class reference is neither a name nor an attribute")
 
 
+def attr_name_or_none(n):
+    try:
+        return attr_name(n)
+    except GenError:
+        return None
+
+
 def qual(n):
     """errors.X -> 'Pyro5.errors.X';  X -> 'builtins.X' (X must be a builtin exception class)"""
     import builtins
@@ -95,7 +102,10 @@ def handler_facts(tree):
     catch = class_tuple(h.type)
     need(len(catch) == 1, "handleRequest: outer handler catches a tuple")
     var = h.name
-    ifs = [n for n in h.body if isinstance(n, ast.If)]
+    hbody = h.body
+    while len(hbody) == 1 and isinstance(hbody[0], ast.Try) and not hbody[0].handlers and not hbody[0].orelse:
+        hbody = hbody[0].body          # try/finally wrapper around the handler's statements: the finally part is not routing
+    ifs = [n for n in hbody if isinstance(n, ast.If)]
     need(len(ifs) in (2, 3), "handleRequest: outer handler: expected two or three if statements, found %d" % len(ifs))
     # if msg: ... (pyroMsg) ; if not isinstance(xv, CCE): if not oneway: if isinstance(xv, SE) or not isinstance(xv, CE): send
     t = ifs[1].test
@@ -136,14 +146,18 @@ def handler_facts(tree):
          "handleRequest: re-raise statement has an unexpected shape")
     reraise = isinstance_test(rr.test.values[1], var)
     need(reraise is not None, "handleRequest: re-raise test is not an isinstance test")
-    # batch member handler
+    # batch member handler: the try whose handler wraps the caught exception in _ExceptionWrapper, in the dispatch code
+    # itself or in a private helper it calls
     batch_try = []
-    for n in ast.walk(outer):
-        if isinstance(n, ast.For):
-            for s in n.body:
-                if isinstance(s, ast.Try):
-                    batch_try.append(s)
-    need(len(batch_try) == 1, "handleRequest: expected exactly one try inside the batch loop")
+    for fn in reachable(mod, "Daemon", ast.Module(body=list(outer.body), type_ignores=[]), depth=2):
+        for n in ast.walk(fn):
+            if isinstance(n, ast.Try) and n not in batch_try:
+                for hh in n.handlers:
+                    if hh.name and any(isinstance(c, ast.Call) and attr_name_or_none(c.func) == "_ExceptionWrapper" and len(c.args) == 1
+                                       and isinstance(c.args[0], ast.Name) and c.args[0].id == hh.name for st in hh.body for c in ast.walk(st)):
+                        batch_try.append(n)
+                        break
+    need(len(batch_try) == 1, "handleRequest: expected exactly one try that wraps a batch member's exception, found %d" % len(batch_try))
     bt = batch_try[0]
     need(len(bt.handlers) == 1 and bt.handlers[0].type is not None and bt.handlers[0].name, "batch member handler has an unexpected shape")
     bcatch = class_tuple(bt.handlers[0].type)
@@ -154,7 +168,7 @@ def handler_facts(tree):
                and isinstance(s.targets[0].value, ast.Name) and s.targets[0].value.id == bvar for s in body)
     b_wrap = any(isinstance(c, ast.Call) and attr_name(c.func) == "_ExceptionWrapper" and len(c.args) == 1
                  and isinstance(c.args[0], ast.Name) and c.args[0].id == bvar for s in body for c in ast.walk(s))
-    b_break = any(isinstance(s, ast.Break) for s in body)
+    b_break = any(isinstance(s, (ast.Break, ast.Return)) for s in body)
     need(b_wrap, "batch member handler does not wrap the exception in _ExceptionWrapper")
     # _sendExceptionResponse
     s = find_func(mod, "_sendExceptionResponse", "Daemon")
@@ -193,8 +207,15 @@ def client_facts(tree):
     tries = [n for n in f.body if isinstance(n, ast.Try)]
     need(len(tries) == 1 and len(tries[0].handlers) == 1, "_pyroInvoke: expected one try with one handler")
     t = tries[0]
-    raises = [n for st in t.body for n in ast.walk(st) if isinstance(n, ast.Raise) and isinstance(n.exc, ast.Name) and n.exc.id == "data"]
-    need(len(raises) == 1, "_pyroInvoke: `raise data` not found exactly once inside the try")
+    # the statement that raises the decoded reply: `raise <name>` where <name> = <serializer>.loads(...), in the try body
+    # itself or in a private helper called from it (so that the handler below is what decides about the connection)
+    raises = []
+    for fn in reachable(mod, "Proxy", ast.Module(body=list(t.body), type_ignores=[]), depth=2):
+        loaded = {tg.id for a in ast.walk(fn) if isinstance(a, ast.Assign) and isinstance(a.value, ast.Call)
+                  and isinstance(a.value.func, ast.Attribute) and a.value.func.attr == "loads"
+                  for tg in a.targets if isinstance(tg, ast.Name)}
+        raises += [n for n in ast.walk(fn) if isinstance(n, ast.Raise) and isinstance(n.exc, ast.Name) and n.exc.id in loaded]
+    need(len(raises) == 1, "_pyroInvoke: the `raise <decoded reply>` statement was not found exactly once inside the try (or its helpers)")
     h = t.handlers[0]
     need(h.type is not None, "_pyroInvoke: bare except")
     rel = class_tuple(h.type)
